@@ -539,7 +539,11 @@ def apply_specs(repo, res, rows, rule='SPEC'):
                 pool = [n.test for n in ast.walk(f.node) if isinstance(n, (ast.If, ast.While, ast.IfExp, ast.Assert))]
             else:
                 pool = [n for n in ast.walk(f.node) if isinstance(n, ast.Call)]
-            ok = any(_safe_nf_expr(t) == want for t in pool)
+            if kind == 'test':
+                # a test and its negation (with the branches swapped) are the same decision
+                ok = any(_unsigned_test(_safe_nf_expr(t)) == _unsigned_test(want) for t in pool)
+            else:
+                ok = any(_safe_nf_expr(t) == want for t in pool)
             res.oblige(rule, f'{f.qualname}: {meaning}', ok, nontrivial=True, sample={'function': fullname, 'want': want})
             if not ok:
                 res.add(Finding(rule, fullname, meaning, f.loc,
@@ -626,6 +630,17 @@ def _preorder(node):
     yield node
     for c in ast.iter_child_nodes(node):
         yield from _preorder(c)
+
+
+def _unsigned_test(t):
+    if not isinstance(t, str):
+        return t
+    for neg_, pos_ in (('isnot(', 'is('), ('ne(', 'eq('), ('notin(', 'in(')):
+        if t.startswith(neg_):
+            return pos_ + t[len(neg_):]
+    if t.startswith('not(') and t.endswith(')'):
+        return t[4:-1]
+    return t
 
 
 def _safe_nf_expr(e):
